@@ -869,6 +869,52 @@ def t_forward_attributes(it):
     return h
 
 
+def t_forward_context_factories(it):
+    """<X>.context(**hooks) builds the context object with every hook in the field of its own name (the dataclasses are constructed
+    positionally in the library) and policy = self; __enter__ hands out the bound call, __exit__ never swallows; Policy/AsyncPolicy
+    constructors store their two components."""
+    stdlib.install_clock(it)
+    FACT = [("redress.policy.retry_sync:Retry", "_RetryContext"), ("redress.policy.retry_async:AsyncRetry", "_AsyncRetryContext"),
+            ("redress.policy.policy:Policy", "_PolicyContext"), ("redress.policy.async_policy:AsyncPolicy", "_AsyncPolicyContext")]
+
+    def h(it):
+        p = it.path
+        ckey, ctxname = FACT[p.choose(len(FACT), "case")]
+        ci = it.tree.cls(ckey)
+        if "Policy" in ckey and p.choose(2, "constructor") == 1:
+            r_, b_ = EnvFn("arg:retry"), EnvFn("arg:breaker")
+            o = it.construct(ci, [], {"retry": r_, "circuit_breaker": b_})
+            p.oblige(f"{ckey}.__init__/C12/stores-its-components", o.fields.get("retry") is r_ and o.fields.get("circuit_breaker") is b_
+                     and set(o.fields) == {"retry", "circuit_breaker"}, prop=None, detail=sorted(o.fields))
+            p.cover(f"{ckey}.__init__")
+            return
+        obj = Obj(ci, {"retry": None, "circuit_breaker": None})
+        kw = fresh_args(PARAMS_CALL)
+        r = call_catch(it, BoundV(obj, FuncV(it.tree.find_method(ci, "context"))), [], kw)
+        base = f"{ckey}.context"
+        ok = r[0] == "ok" and isinstance(r[1], Obj) and r[1].cls is not None and r[1].cls.name == ctxname
+        p.oblige(f"{base}/C12/returns-its-context-manager", ok, prop=None)
+        if not ok:
+            return
+        c = r[1]
+        p.oblige(f"{base}/C12/context-is-bound-to-self", c.fields.get("policy") is obj, prop=None)
+        for n in PARAMS_CALL:
+            p.oblige(f"{base}/C12/binds/{n}", c.fields.get(n) is kw[n], prop=None)
+        enter = "__aenter__" if "Async" in ctxname else "__enter__"
+        ent = it.call_value(it.getattr_value(c, enter), [], {})
+        if isinstance(ent, tuple) and ent and ent[0] == "coro_done":
+            ent = ent[1]
+        p.oblige(f"{base}/C12/__enter__-hands-out-the-bound-call",
+                 isinstance(ent, BoundV) and ent.self_obj is c and ent.func.info.key.endswith(".call"), prop=None)
+        ex = it.call_value(it.getattr_value(c, "__aexit__" if "Async" in ctxname else "__exit__"), [None, None, None], {})
+        if isinstance(ex, tuple) and ex and ex[0] == "coro_done":
+            ex = ex[1]
+        p.oblige(f"{base}/C12/__exit__-never-swallows", ex is False, prop=None)
+        p.cover(f"{base}")
+
+    return h
+
+
 TASKS = []
 
 
@@ -897,6 +943,9 @@ TASKS += [
                                                                 "redress.policy.retry_helpers:_resolve_sleep", "redress.policy.retry_helpers:_resolve_before_sleep",
                                                                 "redress.policy.retry_helpers:_resolve_sleeper", "redress.policy.retry_helpers:_resolve_attempt_hooks"]),
     Task("forward.policy->retry", t_forward_policy_to_retry, [P, "C16"], []),
+    Task("forward.context-factories", t_forward_context_factories, [P, "C16"], [
+        "redress.policy.retry_sync:Retry.context", "redress.policy.retry_async:AsyncRetry.context", "redress.policy.policy:Policy.context",
+        "redress.policy.async_policy:AsyncPolicy.context", "redress.policy.policy:Policy.__init__", "redress.policy.async_policy:AsyncPolicy.__init__"]),
     Task("forward.attributes", t_forward_attributes, [P, "C16"], [
         "redress.policy.wrappers:RetryPolicy.__setattr__", "redress.policy.wrappers:AsyncRetryPolicy.__setattr__",
         "redress.policy.wrappers:RetryPolicy.__getattr__", "redress.policy.wrappers:AsyncRetryPolicy.__getattr__"]),
